@@ -308,7 +308,7 @@ def shrink(line, fails):
             cands.append(dict(cfg, input=cfg["input"][:n // 2]))
             cands.append(dict(cfg, input=cfg["input"][:n - 1]))
             cands.append(dict(cfg, input=list(range(1, n + 1))))
-        if cfg["workers"] > 1:
+        if cfg["workers"] > (2 if cfg["behaviour"].startswith("abandon") else 1):
             cands.append(dict(cfg, workers=cfg["workers"] - 1))
         if cfg["buf"] > 0:
             cands.append(dict(cfg, buf=0))
@@ -352,7 +352,7 @@ def drift_guard():
                 how.append(k + " (call-chain shape changed)")
             else:
                 how.append(k + " (body changed)")
-        return False, ("drift guard: the modelled source changed since FunModel/Pipe.lean was written against it: "
+        return False, ("the modelled source changed since FunModel/Pipe.lean was written against it: "
                        + ", ".join(how) + (" ..." if len(changed) > 6 else ""))
     return True, f"{len(cur)} modelled functions unchanged"
 
@@ -406,7 +406,8 @@ def run_tout(mod, tier, seed, replay=None):
     if replay:
         cases = [l.strip() for l in open(replay) if l.strip().startswith("(")]
     else:
-        cases = list(mod.corpus()) + mod.gen(rng, tier, open_keys)
+        # grouped by GOMAXPROCS so that the runtime is re-sized a handful of times, not per case
+        cases = list(mod.corpus()) + sorted(mod.gen(rng, tier, open_keys), key=lambda l: cfg_of(l)["procs"])
     henv = dict(os.environ)
     henv.setdefault("VERIF_CASE_TIMEOUT_MS", "120000")      # the harness detects hangs itself (VERIF_HANG_DEADLINE_MS)
     hargs = [prop]
@@ -441,7 +442,14 @@ def run_tout(mod, tier, seed, replay=None):
             rep.note("the -race harness did not build (cgo unavailable?): " + rout[-200:])
 
     def rerun(line, times):
-        return C.run_lines(hbin, hargs, [line] * times, timeout=600, env=henv)[0]
+        """re-run a case until it fails the oracle (schedule dependent failures) or `times` runs passed"""
+        outs, batch = [], 1
+        while len(outs) < times:
+            outs += C.run_lines(hbin, hargs, [line] * min(batch, times - len(outs)), timeout=600, env=henv)[0]
+            if any(mod.predicate(line, o) for o in outs):
+                break
+            batch *= 3
+        return outs
 
     disagreements, pviol = [], []
     hist, distinct, samples = collections.Counter(), set(), []
@@ -513,6 +521,23 @@ def run_tout(mod, tier, seed, replay=None):
                               f"{len(bad)} of {len(outs)} re-runs failed)\n{small}\n# implementation: {io2}\n# model verdict:  {vd}\n")
         rep.violation(path, why2[:300])
         nviol += 1
+    if nviol == 0 and (disagreements or proof_broken or tie_broken) and not replay:
+        # a proof or the tie broke but no observation of this run violates the property: hunt for a failing
+        # input with further seeds (boundary-biased generator of the same tier) before reporting
+        # `no-failing-input-found`
+        for extra in range(1, 4):
+            hrng = random.Random((seed + 7919 * extra) * 1000003 + sum(map(ord, prop)))
+            hcases = sorted(mod.gen(hrng, "quick", open_keys), key=lambda l: cfg_of(l)["procs"])
+            himpl, _, _ = C.run_lines(hbin, hargs, hcases, timeout=3000, env=henv)
+            found = [(l, o, mod.predicate(l, o)) for l, o in zip(hcases, himpl)]
+            found = [(l, o, w) for l, o, w in found if w and mod.classify(l, o, w) not in open_keys]
+            if found:
+                l, o, w = found[0]
+                path = C.write_replay(prop, f"violation-{seed}-hunt.txt",
+                                      f"# property {prop}: {w}\n# replay: ./check {prop} --replay <this file>\n{l}\n# implementation: {o}\n")
+                rep.violation(path, w[:300])
+                nviol += 1
+                break
     if nviol == 0 and (disagreements or proof_broken or tie_broken):
         what = [w for w in (proof_broken, tie_broken) if w]
         body_case = ""
